@@ -414,6 +414,9 @@ func (k *checker) account(q request, out outcome, idx int, resp *davx.Response, 
 				continue
 			}
 			for _, a := range answered[n] {
+				if a.code >= 500 && k.openStatus(resp, n) {
+					continue
+				}
 				if a.code != 200 {
 					k.report(key(srv, res.Level, form, fmt.Sprintf("available-property-under-%d", a.code)), fmt.Sprintf("%s answers %s under %d", where, n, a.code), q, out, n)
 				} else if v, ok := ref.values[n]; ok && v != a.node.Canon(xmltree.CmpOpts{}) {
@@ -497,6 +500,7 @@ func (k *checker) account(q request, out outcome, idx int, resp *davx.Response, 
 					if v, ok := ref.values[n]; ok && v != a.node.Canon(xmltree.CmpOpts{}) {
 						k.report(key(srv, res.Level, form, "value-differs-from-allprop"), fmt.Sprintf("%s: value of %s differs from the resource's allprop answer", where, n), q, out, n)
 					}
+				case avail && a.code >= 500 && k.openStatus(resp, n):
 				case avail:
 					k.report(key(srv, res.Level, form, fmt.Sprintf("available-property-under-%d", a.code)), fmt.Sprintf("%s: %s is listed by propname but answered under %d", where, n, a.code), q, out, n)
 				case a.code == 404:
@@ -509,6 +513,19 @@ func (k *checker) account(q request, out outcome, idx int, resp *davx.Response, 
 			}
 		}
 	}
+}
+
+// openStatus: the response describes a resource for which the status of
+// property n is left open between 200 and 5xx (see resource.OpenStatus).
+func (k *checker) openStatus(resp *davx.Response, n string) bool {
+	if len(resp.Paths) != 1 {
+		return false
+	}
+	i, ok := k.e.byPath[resp.Paths[0]]
+	if !ok {
+		i, ok = k.e.byPath[strings.TrimSuffix(resp.Paths[0], "/")]
+	}
+	return ok && k.e.res[i].OpenStatus[n]
 }
 
 const plainPropname = `<?xml version="1.0" encoding="utf-8"?><D:propfind xmlns:D="DAV:"><D:propname/></D:propfind>`
@@ -627,6 +644,10 @@ func (k *checker) reference(idx int) *reference {
 			if !ref.names[n] {
 				good = false
 				k.report(key(srv, res.Level, "allprop", "property-not-in-propname"), fmt.Sprintf("allprop answers %s which propname does not list", n), qa, outa, n)
+				continue
+			}
+			if ps.Status.Code >= 500 && res.OpenStatus[n] {
+				k.c.Observe("dont-care", "value the server cannot produce (unencodable object) answered under 5xx", 1)
 				continue
 			}
 			if ps.Status.Code != 200 {
